@@ -18,7 +18,7 @@ PKG = 'onsager'
 # other check reads the tree as written, which is what its rules and its confirmed instance counts refer to.  Feeding a
 # rule a tree form it was not written for makes its anchors vanish (false alarms / floors not met), so the form is part of
 # the rule, declared here per property, and never a global switch.
-NORMAL_FORM_PROPS = frozenset(['C01', 'C02', 'C04'])
+NORMAL_FORM_PROPS = frozenset(['C01', 'C02', 'C04', 'C06'])
 FORMS = ('raw', 'normal')
 _NORM_CACHE = {}
 
@@ -32,11 +32,37 @@ def form_for(prop):
 
 
 def _normalized(src, raw):
+    """normal form of one module; memoised in the process and, keyed by the digest of (source, norm.py), on disk under
+    /verif/.cache (git-ignored: a fresh checkout recomputes it; a stale or unreadable entry is ignored)."""
     import hashlib
+    import pickle
     from .engines import norm
     key = hashlib.sha1(src.encode('utf-8', 'replace')).hexdigest()
     if key not in _NORM_CACHE:
-        _NORM_CACHE[key] = norm.normalize_module(raw)
+        tree = None
+        path = None
+        if os.environ.get('SA_NOCACHE') != '1':
+            try:
+                with open(norm.__file__.replace('.pyc', '.py'), 'rb') as f:
+                    eng = hashlib.sha1(f.read()).hexdigest()[:12]
+                cdir = os.path.join(os.path.dirname(os.path.dirname(os.path.abspath(__file__))), '.cache', 'norm')
+                path = os.path.join(cdir, '%s-%s-%d.%d.pickle' % (key, eng, *__import__('sys').version_info[:2]))
+                with open(path, 'rb') as f:
+                    tree = pickle.load(f)
+            except Exception:
+                tree = None
+        if tree is None:
+            tree = norm.normalize_module(raw)
+            if path is not None:
+                try:
+                    os.makedirs(os.path.dirname(path), exist_ok=True)
+                    tmp = '%s.%d.tmp' % (path, os.getpid())
+                    with open(tmp, 'wb') as f:
+                        pickle.dump(tree, f)
+                    os.replace(tmp, path)
+                except Exception:
+                    pass
+        _NORM_CACHE[key] = tree
     return norm.clone(_NORM_CACHE[key])
 
 
